@@ -335,7 +335,9 @@ Fixpoint all_refused (v : variant) (cfg : config) (s : sys) (es : list event) (c
    ------------------------------------------------------------------------------------------------ *)
 Inductive t_id := IdNone | IdHalf | IdListen | IdTarget | IdStranger.
 Inductive t_mid := MidNone | MidTunnel | MidOther.
-Inductive t_secret := SNone | SRight | SWrong.
+(* boundary secrets: unrelated string, first character, all but the last character, all but the first, right+1 character,
+   case flipped, last character changed, the right secret of ANOTHER mapping — all are simply "not the mapping's secret" *)
+Inductive t_secret := SNone | SRight | SWrong | SPrefix1 | SPrefixAll | SSuffix | SPlus | SCase | SOneChar | SOther.
 Inductive t_mstate := MActive | MRevoked | MExpired | MInactive | MMissing.
 Inductive t_tstate := TNone | TWaiting | TServed | TRemote.
 Record cell := { ce_id : t_id; ce_mid : t_mid; ce_secret : t_secret; ce_resume : bool; ce_mstate : t_mstate; ce_tstate : t_tstate }.
@@ -364,6 +366,8 @@ Definition cell_req (c : cell) : request :=
   {| r_mid := match ce_mid c with MidNone => 0 | MidTunnel => 1 | MidOther => 2 end;
      r_tid := 7;
      r_secret := match ce_secret c with SNone => 0 | SWrong => 999
+                 | SPrefix1 => 991 | SPrefixAll => 992 | SSuffix => 993 | SPlus => 994 | SCase => 995 | SOneChar => 996
+                 | SOther => match ce_mid c with MidOther => 101 | _ => 102 end
                  | SRight => match ce_mid c with MidOther => 102 | _ => 101 end end;
      r_resume := ce_resume c |}.
 Definition cell_tun (c : cell) : tid -> option bridge :=
@@ -388,7 +392,7 @@ Definition cell_entitled (c : cell) : bool :=
 
 Definition all_ids := [IdNone; IdHalf; IdListen; IdTarget; IdStranger].
 Definition all_mids := [MidNone; MidTunnel; MidOther].
-Definition all_secrets := [SNone; SRight; SWrong].
+Definition all_secrets := [SNone; SRight; SWrong; SPrefix1; SPrefixAll; SSuffix; SPlus; SCase; SOneChar; SOther].
 Definition all_mstates := [MActive; MRevoked; MExpired; MInactive; MMissing].
 Definition all_tstates := [TNone; TWaiting; TServed; TRemote].
 Definition all_cells : list cell :=
